@@ -266,6 +266,14 @@ func (b *Builder) Value(t reflect.Type, depth int) reflect.Value {
 	if b.MaxDepth == 0 {
 		b.MaxDepth = 5
 	}
+	// named types defined over a well-known struct or array type (type AlertHTMLURL url.URL): built as that type
+	if k := t.Kind(); (k == reflect.Struct || k == reflect.Array) && t.PkgPath() != "" {
+		for _, std := range []reflect.Type{tURL, tTime, tAddr} {
+			if t != std && sameShape(t, std) && t.ConvertibleTo(std) && std.ConvertibleTo(t) {
+				return b.Value(std, depth).Convert(t)
+			}
+		}
+	}
 	// well-known leaves first
 	switch t {
 	case tTime:
@@ -578,4 +586,21 @@ func (b *Builder) keyConstrained(t reflect.Type) bool {
 	b.Pkg.constrained[t] = res
 	b.Pkg.mu.Unlock()
 	return res
+}
+
+// sameShape: a struct type with the field names and types of std (a defined type over std), or an array of the
+// same length and element type.
+func sameShape(t, std reflect.Type) bool {
+	if t.Kind() != reflect.Struct || std.Kind() != reflect.Struct {
+		return false // a named [16]byte need not be a UUID
+	}
+	if t.NumField() != std.NumField() {
+		return false
+	}
+	for i := 0; i < t.NumField(); i++ {
+		if t.Field(i).Name != std.Field(i).Name || t.Field(i).Type != std.Field(i).Type {
+			return false
+		}
+	}
+	return true
 }
